@@ -19,6 +19,12 @@ def dispatch(prop, tier, replay):
     if prop in ("C04", "C09"):
         from . import check_image
         return check_image.check(prop, tier).finish()
+    if prop == "C16":
+        from . import check_gen
+        return check_gen.check_c16(tier).finish()
+    if prop == "C05":
+        from . import check_gen
+        return check_gen.check_c05(tier).finish()
     if prop == "C18":
         from . import check_c18
         return check_c18.check(tier).finish()
